@@ -477,10 +477,10 @@ SUBS = {"layouts": Sub(layout_pred, strategy=layout_cases), "plotrank": Sub(plot
 
 def jobs(tier):
     layout_pred.__defaults__[0][0] = BUDGET[tier]
-    n1, n2, n3, n4, n5 = (60, 50, 3, 2, 2) if tier == "quick" else (1500, 1200, 40, 20, 12)
+    n1, n2, n3, n4, n5 = (60, 50, 6, 2, 2) if tier == "quick" else (1500, 1200, 60, 20, 12)
     return ([{"sub": "layouts", "n": n1, "shard": i, "budget": BUDGET[tier]} for i in range(6)] +
             [{"sub": "plotrank", "n": n2, "shard": i} for i in range(3)] +
-            [{"sub": "saving", "n": n3, "shard": i} for i in range(4)] +
+            [{"sub": "saving", "n": n3, "shard": i} for i in range(6)] +
             [{"sub": "driver", "n": n4, "shard": i} for i in range(2)] +
             [{"sub": "hashseed", "n": n5, "shard": i} for i in range(1)])
 
